@@ -177,8 +177,11 @@ def check(case):
             return res
         lines1 = colfmt.read_pqr_text(r1.pqr_text, False)
         # numbering may repeat across chains: compare non-terminal residues by (chain-less) order
-        body0 = [ln for ln in lines0 if ln["seq"] not in term_keys]
-        body1 = [ln for ln in lines1 if ln["seq"] not in term_keys]
+        # a histidine named HIS gets its tautomer (HID / HIE) from the optimiser, which legitimately reacts
+        # to the different terminal hydrogens next to it: such residues are compared by presence only
+        his_any = {ch["start"] + i for ch in desc["chains"] for i, rn in enumerate(ch["seq"]) if rn == "HIS"}
+        body0 = [ln for ln in lines0 if ln["seq"] not in term_keys and ln["seq"] not in his_any]
+        body1 = [ln for ln in lines1 if ln["seq"] not in term_keys and ln["seq"] not in his_any]
         # state (names, charge, radius) of non-terminal residues is unchanged; hydrogen positions
         # of neighbours may legitimately react to the different terminal hydrogens
         # (as a multiset: a flip or a carboxyl name exchange re-orders atoms inside a residue)
